@@ -39,6 +39,39 @@ type program struct {
 	// point (interleavings inside the interpreter's own bookkeeping, e.g. between
 	// the binding of two parameters of one invocation)
 	LockPoints bool `json:"lockpoints,omitempty"`
+	// Detached: the script only wires the pipeline up and returns its last
+	// channel; the goroutines go on after the script's top level has ended and the
+	// HOST takes the items out of that channel afterwards
+	Detached bool `json:"detached,omitempty"`
+}
+
+// drain replaces a returned channel by the list of items the host finds in it,
+// followed by "closed" or "open".  After a scheduled run every goroutine has
+// finished or is blocked, so the receive is non-blocking (buffered channels are
+// real channels under the scheduler); after a free run it waits for the close.
+func drain(v interface{}, wait bool) interface{} {
+	rv := reflect.ValueOf(v)
+	if !rv.IsValid() || rv.Kind() != reflect.Chan {
+		return v
+	}
+	out := []interface{}{}
+	for {
+		var x reflect.Value
+		var ok bool
+		if wait {
+			x, ok = rv.Recv()
+		} else {
+			x, ok = rv.TryRecv()
+		}
+		if ok {
+			out = append(out, x.Interface())
+			continue
+		}
+		if x.IsValid() {
+			return append(out, "closed")
+		}
+		return append(out, "open")
+	}
 }
 
 func render(v interface{}) string {
@@ -239,6 +272,34 @@ func pipelines(thorough bool) []program {
 	return ps
 }
 
+// detached pipelines: the script starts the goroutines and returns the last
+// channel at once; the host takes the items out after the run.  The last
+// channel has room for every item, so no goroutine ever waits for the host.
+func detached() []program {
+	var ps []program
+	for n := 1; n <= 3; n++ {
+		var want []interface{}
+		var items []string
+		for i := 1; i <= n; i++ {
+			want = append(want, int64(i))
+			items = append(items, fmt.Sprint(i))
+		}
+		want = append(want, "closed")
+		list := strings.Join(items, ", ")
+		ps = append(ps,
+			program{Name: fmt.Sprintf("detached/1stage/n%d", n), Detached: true, Bound: -1, Stages: 1, Expect: render(want),
+				Src: fmt.Sprintf("out = make(chan int64, %d)\ngo func() { for v in [%s] { out <- v }; close(out) }()\nout\n", n, list)},
+			program{Name: fmt.Sprintf("detached/2stage-range/n%d", n), Detached: true, Bound: 3, Stages: 2, Expect: render(want),
+				Src: fmt.Sprintf("c = make(chan int64)\nout = make(chan int64, %d)\ngo func() { for v in [%s] { c <- v }; close(c) }()\ngo func() { for v in c { out <- v }; close(out) }()\nout\n", n, list)},
+			program{Name: fmt.Sprintf("detached/2stage-forward/n%d", n), Detached: true, Bound: 3, Stages: 2, Expect: render(want),
+				Src: fmt.Sprintf("c = make(chan int64, 1)\nout = make(chan int64, %d)\ngo func() { for v in [%s] { c <- v }; close(c) }()\ngo func(k) { for i = 0; i < k; i++ { out <- <-c }; close(out) }(%d)\nout\n", n, list, n)},
+			program{Name: fmt.Sprintf("detached/func-arg/n%d", n), Detached: true, Bound: -1, Stages: 1, Expect: render(want),
+				Src: fmt.Sprintf("func produce(o, l) { for v in l { o <- v }; close(o) }\nout = make(chan int64, %d)\ngo produce(out, [%s])\nout\n", n, list)},
+		)
+	}
+	return ps
+}
+
 // sequential facts about closed channels and `go` argument evaluation
 func facts() []program {
 	return []program{
@@ -374,7 +435,7 @@ func outcomeKey(o vmrun.Outcome) string {
 }
 
 // freeRun executes the program with real goroutines and channels.
-func freeRun(stmt ast.Stmt) (key string, timedOut bool) {
+func freeRun(stmt ast.Stmt, detached bool) (key string, timedOut bool) {
 	type res struct {
 		v   interface{}
 		err error
@@ -383,6 +444,9 @@ func freeRun(stmt ast.Stmt) (key string, timedOut bool) {
 	ctx := stepctx.New(-1)
 	go func() {
 		v, err := vm.RunContext(ctx, newEnv(), &vm.Options{Debug: false}, stmt)
+		if detached && err == nil {
+			v = drain(v, true)
+		}
 		done <- res{v, err}
 	}()
 	select {
@@ -400,7 +464,7 @@ func freeRun(stmt ast.Stmt) (key string, timedOut bool) {
 
 func run(c *common.Ctx) *common.Result {
 	res := common.NewResult()
-	progs := append(facts(), pipelines(c.Thorough())...)
+	progs := append(append(facts(), detached()...), pipelines(c.Thorough())...)
 	freeRuns := 30
 	if c.Thorough() {
 		freeRuns = 100
@@ -426,6 +490,9 @@ func run(c *common.Ctx) *common.Result {
 		for _, bound := range bounds {
 			st := explore.DFS(explore.Options{Bound: bound, MaxExecs: 3000000, Deadline: c.Deadline}, func(r *explore.Run) bool {
 				o := vmrun.Run(stmt, newEnv(), r, cfgFor(p, false))
+				if p.Detached {
+					o.Val = drain(o.Val, false)
+				}
 				res.Add("transitions", int64(o.Steps))
 				if r.Err != nil {
 					res.Note("replay divergence in " + p.Name + ": " + r.Err.Error())
@@ -438,6 +505,9 @@ func run(c *common.Ctx) *common.Result {
 					// replay the recorded schedule on a fresh instance before trusting the failure
 					r2 := &explore.Run{Prefix: choices}
 					o2 := vmrun.Run(stmt, newEnv(), r2, cfgFor(p, false))
+					if p.Detached {
+						o2.Val = drain(o2.Val, false)
+					}
 					if cl2, _ := check(p, o2); r2.Err != nil || cl2 != cl {
 						res.Note(fmt.Sprintf("a failure of %s (%s) did not reproduce when its schedule was replayed (second run: %q): not reported", p.Name, cl, cl2))
 						res.Cap("an execution did not replay identically (machinery)")
@@ -472,7 +542,7 @@ func run(c *common.Ctx) *common.Result {
 		if len(reported) == 0 {
 			for i := 0; i < freeRuns; i++ {
 				runtime.GOMAXPROCS([]int{1, 2, 16}[i%3])
-				k, to := freeRun(stmt)
+				k, to := freeRun(stmt, p.Detached)
 				if to {
 					res.Violate(common.Violation{Class: "conformance/free-run-hangs", Case: p.Name + "\n" + p.Src, Detail: "a free run (real goroutines) did not finish within 60 s although no explored schedule deadlocks",
 						Replay: replayData{Program: p}})
@@ -528,6 +598,9 @@ func replay(c *common.Ctx, path string) int {
 	for round := 0; round < 2; round++ {
 		r := &explore.Run{Prefix: rd.Choices}
 		o := vmrun.Run(stmt, newEnv(), r, cfgFor(rd.Program, true))
+		if rd.Program.Detached {
+			o.Val = drain(o.Val, false)
+		}
 		if r.Err != nil {
 			fmt.Println("replay diverged:", r.Err)
 			return 2
